@@ -98,6 +98,8 @@ def cases(tier, seed):
                 # agents of one name group interleaved with another group: columns of the joint action / observation have
                 # to follow agent_ids, not the grouping
                 c["ids"] = [None, ["agent_0", "other_0", "agent_1"], ["bob_1", "alice_0", "bob_0"]][r % 3]
+                # agents whose episodes end at different transitions (each agent's target masks with ITS OWN done flag)
+                c["per_agent_done"] = bool(r % 2 == 1)
             if c["obs"] == "image":
                 c["no_batch_norm"] = bool(rng.random() < 0.7)
             out.append(c)
@@ -234,8 +236,11 @@ def _scramble_next_obs(batch, rng):
         return x
 
     if b["multi"]:
+        # centralised critics see every agent's next observation: only rows in which EVERY agent is done may not depend on any
+        # next observation (with shared flags this is each agent's own flag)
+        all_done = np.min(np.stack([np.asarray(b["done"][aid]).reshape(-1) for aid in b["done"]]), axis=0)
         for aid in b["next_obs"]:
-            b["next_obs"][aid] = scr(b["next_obs"][aid], b["done"][aid])
+            b["next_obs"][aid] = scr(b["next_obs"][aid], all_done)
     else:
         b["next_obs"] = scr(b["next_obs"], b["done"])
     return b
@@ -473,6 +478,10 @@ def run_case(case):
             bseed = int(rng.integers(1 << 30))
             batch = zoo.make_batch(agent, n=n, seed=bseed, done=dv)
             nbatch = zoo.make_batch(agent, n=n, seed=bseed + 1, done=_done_vector(case["done"], n, rng))
+            if case.get("per_agent_done") and batch.get("multi") and case["done"] == "mixed":
+                for k, aid in enumerate(list(batch["done"])):
+                    batch["done"][aid] = np.roll(np.asarray(batch["done"][aid]), k, axis=0)
+                rec.hit("multi_agent_batches_with_per_agent_done_flags")
             reuse = {"n": n, "batch": batch, "nbatch": nbatch, "dv": dv, "cache": {}}
         try:
             ref = copy.deepcopy(agent)
